@@ -110,6 +110,15 @@ where
                 chunks.borrow()
             ));
         }
+        // deviation: a spurious poll of a pending, not-woken request (executors may do that)
+        let idle = ex.idle();
+        if !idle.is_empty() {
+            let d = cx.deviate(1 + idle.len());
+            if d > 0 {
+                ex.poll(idle[d - 1]);
+                continue;
+            }
+        }
         let pick = w[cx.choose(w.len())];
         order.borrow_mut().push(pick);
         ex.poll(pick);
